@@ -220,6 +220,9 @@ def build(seed, prop, idx, o=None):
             el.meta["pre_from_earlier_run"] = sorted(other)
         except Exception:  # noqa: BLE001  (not judged here)
             pass
+    r2 = gen.rng_for(seed, prop, idx, salt=4242)  # own stream: the classes above are drawn as before
+    if o.get("baseline_rows_shuffled", bool(r2.random() < 0.2)) and not el.meta.get("cat_key"):
+        el.meta["baseline_rows_shuffled"] = int(r2.integers(1, 10**6))  # applied by harness.baseline_argument
     return el, feed, status, call
 
 
